@@ -12,14 +12,22 @@ def s_inputs(s): return [getattr(s, n) for n in S2M]
 def req(h, m): return z3.And(b(h.v(m.cyc)), b(h.v(m.stb)))
 def m2s_tok(h, m, names=("adr", "dat_w", "sel", "we", "cti", "bte")): return cat(*[h.v(getattr(m, n)) for n in names])
 
-def master_holds(h, m, name="", term=None):
+class Held:
+    """previous-cycle copies of a master's request fields (ghosts): hints must use these, not the raw inputs"""
+    pass
+
+def master_holds(h, m, name="", term=None, fields=("adr", "dat_w", "sel", "we", "cti", "bte")):
     """Wishbone classic master: once cyc&stb is raised, cyc, stb, adr, we, sel, dat_w (and tags) are held until the
     cycle is terminated (ack or err as seen by this master)"""
     term = term if term is not None else z3.Or(b(h.v(m.ack)), b(h.v(m.err)))
     p_pend = h.prev("wbpend" + name, bv1(z3.And(req(h, m), z3.Not(term))))
-    p_tok = h.prev("wbtok" + name, m2s_tok(h, m))
-    h.assume(z3.Implies(b(p_pend), z3.And(req(h, m), m2s_tok(h, m) == p_tok)),
+    held = Held(); eqs = [req(h, m)]
+    for f in fields:
+        g = h.prev(f"wb{f}" + name, h.v(getattr(m, f))); setattr(held, f, g); eqs.append(h.v(getattr(m, f)) == g)
+    h.assume(z3.Implies(b(p_pend), z3.And(*eqs)),
              "Wishbone master holds cyc/stb/adr/we/sel/dat_w/cti/bte until its cycle is terminated by ack or err")
+    held.pend = p_pend
+    h.held = getattr(h, "held", {}); h.held[name] = held
     return p_pend
 
 def slave_legal(h, s, name=""):
